@@ -48,8 +48,14 @@ def groups(idx):
 
 
 def gen_index(rng, n, it):
-    k = it % 6
-    if k == 0:
+    k = it % 7
+    if k == 6:
+        # one step larger than 2^31 (very negative then very positive values)
+        h = n // 2
+        idx = np.concatenate([np.full(h, -2 ** 31 + int(rng.integers(0, 3))),
+                              np.full(n - h, 2 ** 31 - 1 - int(rng.integers(0, 3)))])
+        idx = np.sort(idx)
+    elif k == 0:
         idx = np.zeros(n, dtype=np.int64) + int(rng.integers(-5, 5))
     elif k == 1:
         idx = np.arange(n) + int(rng.integers(-100, 100))
@@ -337,7 +343,7 @@ def run(ctx):
         n = [1, 2, 3, 5][it % 4] if it % 9 == 0 else int(rng.integers(1, 120))
         if it % 50 == 3:
             n = int(rng.integers(500, 2001))
-        idx = gen_index(rng, n, int(rng.integers(0, 6)))
+        idx = gen_index(rng, n, int(rng.integers(0, 7)))
         v = gen_values(rng, n, int(rng.integers(0, 5)))
         v, tags = add_nans(rng, v, idx, int(rng.integers(0, 6)))
         glen = max(e - s for s, e in groups(idx))
